@@ -87,6 +87,7 @@ func init() {
 	c7 := *c01
 	c7.QuickRuns, c7.ThoroughRuns, c7.RunsPerProc = 10000, 300000, 200
 	c7.Rule = "one evaluation = one simulated run (1-6 tasks with generated run times, max delays and self actions; 1-3 client goroutines issuing Queue/QueuePrioritized/StartASAP/Schedule/Cancel programs; optional microtask load; seeded schedule); distinct = distinct hash of the operation + execution history; non-trivial = at least 2 goroutine switches"
+	c7.MapPkgs = "modules" // the three task lists (container/list) and the module maps
 	props["C07"] = &c7
 	c15 := *c01
 	c15.QuickRuns, c15.ThoroughRuns, c15.RunsPerProc = 12000, 300000, 200
